@@ -16,7 +16,7 @@ BUILD_ROOT = os.environ.get("VERIF_BUILD_ROOT", os.path.join(VERIF, "build"))
 WRAP = ("-Wl,--wrap=posix_memalign,--wrap=free,--wrap=mmap,--wrap=munmap,--wrap=mprotect"
         ",--wrap=pthread_mutex_lock,--wrap=pthread_mutex_trylock,--wrap=pthread_mutex_unlock,--wrap=pthread_rwlock_rdlock,--wrap=pthread_rwlock_wrlock"
         ",--wrap=pthread_rwlock_unlock,--wrap=pthread_spin_lock,--wrap=pthread_spin_unlock,--wrap=pthread_once,--wrap=__cxa_guard_acquire"
-        ",--wrap=__cxa_guard_release,--wrap=__cxa_guard_abort,--wrap=sigaction,--wrap=signal")
+        ",--wrap=__cxa_guard_release,--wrap=__cxa_guard_abort,--wrap=sigaction,--wrap=signal,--wrap=shm_open,--wrap=shm_unlink,--wrap=memfd_create")
 SIM_SOURCES = ["rt/rt.cpp", "seams/seams.cpp", "ops/ops.cpp", "ops/exec.cpp", "ops/gen.cpp", "ops/c11.cpp", "ops/main.cpp", "model/model.cpp"]
 SIM_TSAN_SOURCES = ["seams/tsan_glue.cpp"]
 CONFIG_HEADERS = {"shipped": None, "small-a": "cfg/small_a.h", "small-b": "cfg/small_b.h"}
